@@ -220,6 +220,146 @@ Example C17_xz_guard_nonvacuous :
   xz_complete_st (xz_track [firstn 14 xz_empty_container; firstn 17 (skipn 14 xz_empty_container); skipn 31 xz_empty_container]) = true.
 Proof. vm_compute. repeat split; reflexivity. Qed.
 
+
+(* ================================================================ round 3 ================================================================ *)
+(* --- the raw input behind shortInputReporter (the decompressors behind truncationReporter): io.ErrUnexpectedEOF is renamed *)
+
+(* the function-level wrapper `report_src` is the Go wrapper: every Read of the wrapped source is the Read of the source with its
+   error renamed (io.ErrUnexpectedEOF -> ErrShortInput / ErrTruncatedInput), same bytes, same schedule *)
+Theorem C17_reporter_is_read_wrapper :
+  forall k d sch f eager,
+    read k (RSrc d sch (report_err f) eager) =
+    let '(x, e, r') := read k (RSrc d sch f eager) in (x, report_opt e, report_src r').
+Proof. exact read_report_src. Qed.
+
+(* [core] EVERY way a raw input can end other than a clean EOF -- io.ErrUnexpectedEOF included, which round 2 had to exclude
+   (hypothesis `snd (den r) <> FUnexpected`, `f <> FUnexpected`) -- is fatal behind the reporter, for every read schedule, error
+   delivered alone or with the last bytes, every bufio size, sniffer, chunk size and splitter *)
+Theorem C17_short_input_is_fatal_any_schedule :
+  forall (split : list N -> option nat) (B ext : N) (detect : list N -> bool) (sn : option N) d sch f eager bs,
+    (forall b e, split b = Some e -> (0 < e <= length b)%nat) -> 1 <= ext -> f <> FEof ->
+    pipeline split B ext detect open_fixed sn (den_stream (RBuf bs [] None (RSrc d sch (report_err f) eager))) = ExitFatal.
+Proof. exact short_input_is_fatal_any_schedule. Qed.
+
+(* ... and the sniffing pipeline conserves the bytes and the (renamed) end of every source: no hypothesis on f any more *)
+Theorem C17_reported_pipeline_conserves :
+  forall d sch f eager bs1 bs2 sn seen r1 ks fuel,
+    sniff_s sn (RBuf bs1 [] None (RSrc d sch (report_err f) eager)) = Some (seen, r1) -> (length d < fuel)%nat ->
+    drain fuel ks (RBuf bs2 [] None r1) = (d, Some (report_err f)).
+Proof. exact reported_pipeline_conserves. Qed.
+
+(* the finding of round 3 (same input fails on the real unrepaired code): a plain input whose reader ends with io.ErrUnexpectedEOF
+   (HTTP body shorter than its Content-Length), handed over without the reporter, exits 0 with the first record and a half;
+   behind the reporter it is fatal *)
+Theorem C17_short_input_unreported_refuted :
+  pipeline fasta_split CHUNK EXT fasta_detect open_fixed (Some SNIFF) (den_stream (RBuf 4 [] None (RSrc short_witness [] FUnexpected false)))
+    = ExitOk [[62;97;10;97;99;103;116]; [62;98;10;97;99]] /\
+  pipeline fasta_split CHUNK EXT fasta_detect open_fixed (Some SNIFF) (den_stream (RBuf 4 [] None (RSrc short_witness [] (report_err FUnexpected) false)))
+    = ExitFatal.
+Proof. exact short_input_unreported_refuted. Qed.
+
+(* --- several inputs (file arguments, directory, --paired-with) *)
+
+(* the command on one input never hangs: fatal or successful, nothing else (the model's fuel is never exhausted) *)
+Theorem C17_command_never_diverges :
+  forall (split : list N -> option nat) (B ext : N) (detect : list N -> bool) (sn : option N) (s : stream),
+    (forall b e, split b = Some e -> (0 < e <= length b)%nat) -> 1 <= ext ->
+    command_gen split B ext detect sn s = ExitFatal \/ exists ch, command_gen split B ext detect sn s = ExitOk ch.
+Proof. intros split B ext detect sn s Hs HE. exact (command_total split B ext Hs HE detect sn s). Qed.
+
+(* [core] one damaged input among any number of inputs, at any place in the list, makes the command fatal *)
+Theorem C17_multi_fault_is_fatal :
+  forall (split : list N -> option nat) (B ext : N) (detect : list N -> bool) (sn : option N) (l : list stream),
+    (forall b e, split b = Some e -> (0 < e <= length b)%nat) -> 1 <= ext ->
+    Exists (fun s => fin s <> REof) l -> multi_command split B ext detect sn l = ExitFatal.
+Proof. exact multi_fault_is_fatal_gen. Qed.
+
+(* ... inputs which all end cleanly are delivered entirely, in order *)
+Theorem C17_multi_clean_is_complete :
+  forall (split : list N -> option nat) (B ext : N) (detect : list N -> bool) (sn : option N) (l : list stream),
+    (forall b e, split b = Some e -> (0 < e <= length b)%nat) -> 1 <= ext ->
+    Forall (fun s => fin s = REof /\ (data s = [] \/ forall n, sn = Some n -> detect (sniffed n s) = true)) l ->
+    exists ch, multi_command split B ext detect sn l = ExitOk ch /\ sig (concat ch) = concat (map (fun s => sig (data s)) l).
+Proof. intros split B ext detect sn l Hs HE. exact (multi_clean_is_complete split B ext Hs HE detect sn l). Qed.
+
+(* ... and status 0 is only reached when every input ended cleanly *)
+Theorem C17_multi_ok_only_if_all_clean :
+  forall (split : list N -> option nat) (B ext : N) (detect : list N -> bool) (sn : option N) (l : list stream) ch,
+    (forall b e, split b = Some e -> (0 < e <= length b)%nat) -> 1 <= ext ->
+    multi_command split B ext detect sn l = ExitOk ch -> Forall (fun s => fin s = REof) l.
+Proof. intros split B ext detect sn l ch Hs HE. exact (multi_ok_only_if_all_clean split B ext Hs HE detect sn l ch). Qed.
+
+(* hypotheses met / the definitions compute: two clean inputs, a cut one in the middle, the correspondence function *)
+Example C17_multi_nonvacuous :
+  let a := mkstream [62;97;10;97;99;103;116;10] REof in
+  let b := mkstream [62;98;10;97;99;10] REof in
+  let bcut := mkstream [62;98;10;97] RUnexpectedEof in
+  multi_command fasta_split CHUNK EXT fasta_detect (Some SNIFF) [a; b] = ExitOk [[62;97;10;97;99;103;116]; [62;98;10;97;99]] /\
+  multi_command fasta_split CHUNK EXT fasta_detect (Some SNIFF) [a; bcut; b] = ExitFatal /\
+  multi_mismatches [mkm [mkc [62;97;10;97;99;103;116;10] REof true (Some 1048576) 1048576 1048576 true OFatal;
+                         mkc [62;98;10;97] RUnexpectedEof true (Some 1048576) 1048576 1048576 true OFatal] OFatal;
+                    mkm [mkc [62;97;10;97;99;103;116;10] REof true (Some 1048576) 1048576 1048576 true OFatal] OOkAll;
+                    mkm [mkc [62;97;10;97;99;103;116;10] REof true (Some 1048576) 1048576 1048576 true OFatal] OFatal] = [2%nat].
+Proof. vm_compute. repeat split; reflexivity. Qed.
+
+(* --- xopen.Buf: the decompressor is chosen from the magic number (CheckBytes; gzip 2 bytes, zstd 4, xz 6, bzip2 3, tested in this order) *)
+(* [the repair of round 3] a stream which begins with the complete magic number of a format goes to that decompressor WHATEVER ITS LENGTH
+   (so that its truncation is the decompressor's to report); plain data is only what begins with none of the four; the repair changes
+   nothing from six bytes on; the original chain gave up at the first magic number longer than the stream: "BZh9" (a bzip2 file cut to
+   4 bytes) was plain data. Same on the real unrepaired code: `printf BZh9 | obiconvert --embl` exits 0. *)
+Theorem C17_codec_selected_by_magic :
+  forall c r, c <> CRaw -> select check_fixed (magic c ++ r) = c.
+Proof. exact select_fixed_magic. Qed.
+
+Theorem C17_plain_only_without_magic :
+  forall l, select check_fixed l = CRaw <-> (forall c, c <> CRaw -> prefixb (magic c) l = false).
+Proof. exact select_fixed_raw. Qed.
+
+Theorem C17_magic_repair_conservative :
+  forall l, (6 <= length l)%nat -> select check_orig l = select check_fixed l.
+Proof. exact select_conservative. Qed.
+
+Theorem C17_short_bzip2_orig_refuted :
+  select check_orig [66; 90; 104; 57] = CRaw /\ select check_fixed [66; 90; 104; 57] = CBz2 /\
+  select check_orig [66; 90; 104; 57; 49] = CRaw /\ select check_orig [66; 90; 104] = CRaw.
+Proof. exact select_orig_short_bzip2. Qed.
+
+Example C17_select_nonvacuous :
+  select check_fixed [31; 139; 8; 0] = CGz /\ select check_fixed [62; 97; 10] = CRaw /\ select check_fixed [253; 55; 122; 88; 90] = CRaw /\
+  sel_mismatches [mks [31; 139; 8] false; mks [62; 97] true; mks [66; 90; 104; 57] true] = [2%nat].
+Proof. vm_compute. repeat split; reflexivity. Qed.
+
+(* --- ExpandListOfFiles: which files a command reads (file arguments; directory arguments searched for the accepted names) *)
+(* no file is read twice *)
+Theorem C17_expand_no_duplicate : forall args, NoDup (expand args).
+Proof. exact expand_NoDup. Qed.
+
+(* nothing is read but file arguments and files with an accepted name below a directory argument *)
+Theorem C17_expand_sound :
+  forall args q, In q (expand args) ->
+    In (AFile q) args \/ exists fs, In (ADir fs) args /\ In q fs /\ accepted q = true.
+Proof. exact expand_sound. Qed.
+
+(* [core] every file with an accepted name below a directory argument is read, wherever the directory stands in the list *)
+Theorem C17_expand_complete_directories :
+  forall args fs q, In (ADir fs) args -> In q fs -> accepted q = true -> In q (expand args).
+Proof. exact expand_complete_dir. Qed.
+
+(* [core] every file argument is read, whatever precedes it (the filter on extensions concerns the content of directory arguments
+   only, since the repair of ExpandListOfFiles made under C03; C03_expand_v0_refuted holds the behaviour before it) *)
+Theorem C17_expand_complete_files :
+  forall args q, In (AFile q) args -> In q (expand args).
+Proof. exact expand_complete_file. Qed.
+
+Theorem C17_expand_order_independent_content :
+  expand [AFile dtxt; ADir [dfa]] = [dtxt; dfa] /\ expand [ADir [dfa]; AFile dtxt] = [dfa; dtxt].
+Proof. exact expand_order_independent_content. Qed.
+
+Example C17_expand_nonvacuous :
+  accepted dfa = true /\ accepted dtxt = false /\
+  exp_mismatches [mke [ADir [dfa; dtxt]; AFile dfa] [dfa]; mke [AFile dtxt] [dtxt]; mke [ADir [dfa]] []; mke [ADir [dfa]; AFile dtxt] [dfa; dtxt]] = [2%nat].
+Proof. vm_compute. repeat split; reflexivity. Qed.
+
 Print Assumptions C17_fault_is_fatal.
 Print Assumptions C17_clean_input_is_complete.
 Print Assumptions C17_fasta_splitter_cuts_inside.
@@ -243,3 +383,20 @@ Print Assumptions C17_sniffer_conserves_stream.
 Print Assumptions C17_drain_any_schedule.
 Print Assumptions C17_sniff_pipeline_conserves.
 Print Assumptions C17_fault_is_fatal_any_schedule.
+Print Assumptions C17_reporter_is_read_wrapper.
+Print Assumptions C17_short_input_is_fatal_any_schedule.
+Print Assumptions C17_reported_pipeline_conserves.
+Print Assumptions C17_short_input_unreported_refuted.
+Print Assumptions C17_command_never_diverges.
+Print Assumptions C17_multi_fault_is_fatal.
+Print Assumptions C17_multi_clean_is_complete.
+Print Assumptions C17_multi_ok_only_if_all_clean.
+Print Assumptions C17_codec_selected_by_magic.
+Print Assumptions C17_plain_only_without_magic.
+Print Assumptions C17_magic_repair_conservative.
+Print Assumptions C17_short_bzip2_orig_refuted.
+Print Assumptions C17_expand_no_duplicate.
+Print Assumptions C17_expand_sound.
+Print Assumptions C17_expand_complete_directories.
+Print Assumptions C17_expand_complete_files.
+Print Assumptions C17_expand_order_independent_content.
